@@ -287,6 +287,30 @@ def _run_case(case):
             v.check(ice.index(float(z)) == ice.layers[want].index(float(z)), "layered index == the containing layer's index", z=float(z))
             v.check(bool(ice.contains((0, 0, float(z)))), "layered ice contains depths inside its stack", z=float(z))
         v.check(not ice.contains((0, 0, hi + 1)) and not ice.contains((0, 0, lo - 1)), "layered ice excludes depths outside its stack")
+        if len(ice.layers) >= 3:
+            # the same stack with one inner layer taken out: depths in the gap belong to no layer and must not be answered with another layer's ice
+            from pyrex.custom.layered_ice import LayeredIce
+            j_out = int(rng.integers(1, len(ice.layers) - 1))
+            kept = [l_ for j_, l_ in enumerate(ice.layers) if j_ != j_out]
+            try:
+                gapped = LayeredIce(kept, index_above=1.0, index_below=None)
+            except ValueError:
+                gapped = None          # a constructor that refuses stacks with gaps is fine as well
+            if gapped is not None:
+                g_lo, g_hi = ice.layers[j_out].valid_range
+                for z in rng.uniform(g_lo, g_hi, size=4):
+                    if not (g_lo < z < g_hi):
+                        continue
+                    for what, fn in (("layer_at_depth", gapped.layer_at_depth), ("index", gapped.index), ("layer_at_depth (list)", lambda q: gapped.layer_at_depth([q]))):
+                        try:
+                            got = fn(float(z))
+                            v.check(False, "a depth in a gap between layers is not dispatched to a layer that does not contain it", z=float(z), accessor=what, gap=[float(g_lo), float(g_hi)], returned=repr(got)[:80])
+                        except ValueError:
+                            v.check(True, "a depth in a gap between layers is not dispatched to a layer that does not contain it")
+                for l_ in kept:
+                    z = float(rng.uniform(*l_.valid_range))
+                    if l_.valid_range[0] < z <= l_.valid_range[1]:
+                        v.check(gapped.layer_at_depth(z) is l_ and gapped.index(z) == l_.index(z), "layered ice dispatches to the layer containing the depth", z=z, stack="with a gap")
         for lay in ice.layers:
             if hasattr(lay, "n0"):
                 _check_exponential(v, lay, rng, *lay.valid_range)
